@@ -4,6 +4,7 @@
 -/
 import Proofs.Lemmas.Hmac
 import Proofs.Lemmas.HmacAlgs
+import Model.HmacObj
 namespace Proofs.C13
 open Model Model.Hmac
 
@@ -55,6 +56,79 @@ theorem hmac_refines_library (alg : Model.Alg) (key msg : List Nat)
     Hmac.hmac (fun m => Model.hash alg m none) (8 * alg.blocklen) key msg
       = .ok (Spec.rfc2104 (Lemmas.HmacAlgs.specFn alg) alg.blocklen key msg) :=
   Lemmas.HmacAlgs.hmac_alg alg key msg hkey hmsg
+
+/-! ### the hash object has a history (Model.HmacObj: crysp/hmac.py with the hash object's state threaded through) -/
+
+
+/-- `setkey` on a used hash object: the key material does not depend on the state the hash object is found in, provided
+    the digest `h(x)` returns does not (every hash class of the library: `__call__` starts with `initstate`) -/
+theorem setkey_history_free {σ} (h : HmacObj.HashS σ) (f : HashFn) (hf : ∀ s x, (h s x).2 = f x) (o : Hmac) (s : σ)
+    (k : List Nat) : (HmacObj.setkey o h s k).2 = o.setkey f k := by
+  unfold HmacObj.setkey Hmac.setkey
+  by_cases hk : k.length > o.blocksize / 8
+  · have := hf s k
+    cases hh : h s k with
+    | mk s' r =>
+      rw [hh] at this
+      simp only at this
+      subst this
+      cases hfk : f k <;> simp [hk, bind, Except.bind, pure, Except.pure]
+  · simp [hk, bind, Except.bind, pure, Except.pure]
+
+/-- `__call__` on a used hash object: both hash calls are answered as on a new object -/
+theorem call_history_free {σ} (h : HmacObj.HashS σ) (f : HashFn) (hf : ∀ s x, (h s x).2 = f x) (o : Hmac) (s : σ)
+    (m : List Nat) : (HmacObj.call o h s m).2 = o.call f m := by
+  unfold HmacObj.call Hmac.call
+  cases o.K with
+  | none => rfl
+  | some a =>
+    by_cases ha : a.isEmpty
+    · simp [ha]
+    · simp only [ha, Bool.false_eq_true, if_false]
+      have h1 := hf s (xorBytes a (List.replicate (o.blocksize / 8) 0x36) ++ m)
+      cases hh : h s (xorBytes a (List.replicate (o.blocksize / 8) 0x36) ++ m) with
+      | mk s1 r =>
+        rw [hh] at h1
+        simp only at h1
+        subst h1
+        cases hfx : f (xorBytes a (List.replicate (o.blocksize / 8) 0x36) ++ m) with
+        | error e => simp [bind, Except.bind]
+        | ok d => simp [bind, Except.bind, hf]
+
+/-- **hmac_history_free.**  `HMAC(h,key)(msg)` over a hash OBJECT in ANY state `s` (after a salted / bit-length call, a
+    finished or abandoned stream, a refused call, an earlier MAC …) is `HMAC` over the pure hash function `f`, hence RFC 2104
+    by `hmac_refines`, as soon as the digest of a one-shot call `h(x)` does not depend on the state it finds -/
+theorem hmac_history_free {σ} (h : HmacObj.HashS σ) (f : HashFn) (hf : ∀ s x, (h s x).2 = f x) (B : Nat) (s : σ)
+    (k m : List Nat) : (HmacObj.hmac h B s k m).2.2 = Hmac.hmac f B k m := by
+  unfold HmacObj.hmac Hmac.hmac
+  have hs := setkey_history_free h f hf { blocksize := B } s k
+  cases hh : HmacObj.setkey { blocksize := B } h s k with
+  | mk s' r =>
+    rw [hh] at hs
+    simp only at hs
+    rw [← hs]
+    cases r with
+    | error e => simp [bind, Except.bind]
+    | ok o => simp [bind, Except.bind, call_history_free h f hf]
+
+/-- the one-shot call of the ten hash objects of the library is history free: `__call__` = `initstate()` + `update` -/
+theorem library_call_history_free (alg : Model.Alg) (c : HashCore) (hc : alg.new = .ok c) (o : HashObj) (x : List Nat) :
+    (c.call o x none).2 = Model.hash alg x none := by
+  simp [Model.hash, hc, HashCore.hash, HashCore.call, bind, Except.bind]
+
+/-- **hmac_after_history_library.**  For the ten MD/SHA objects: whatever the hash object was used for before it is handed
+    to HMAC, between `HMAC(h,key)` and the call, or between two MACs (`s` is ANY object state, reachable or not), the MAC
+    is RFC 2104 over the standard hash function -/
+theorem hmac_after_history_library (alg : Model.Alg) (c : HashCore) (hc : alg.new = .ok c) (s : HashObj) (key msg : List Nat)
+    (hkey : ∀ x ∈ key, x < 256) (hmsg : ∀ x ∈ msg, x < 256) :
+    (HmacObj.hmac (fun o x => c.call o x none) (8 * alg.blocklen) s key msg).2.2
+      = .ok (Spec.rfc2104 (Lemmas.HmacAlgs.specFn alg) alg.blocklen key msg) := by
+  rw [hmac_history_free _ _ (library_call_history_free alg c hc)]
+  exact hmac_refines_library alg key msg hkey hmsg
+
+/-- non-vacuity: a state no fresh object is in (a preset bit counter, the padding flag set) -/
+example : ∃ (c : HashCore) (s : HashObj), Model.Alg.md5.new = .ok c ∧ s.pad.padflag = true ∧ s.pad.bitcnt = 512 :=
+  ⟨Md.md5Core, ⟨[], { padflag := true, bitcnt := 512 }⟩, rfl, rfl, rfl⟩
 
 /-! non-vacuity: the hypotheses hold for a non-trivial instance (a 2-byte "digest", 4-byte block, 6-byte key) -/
 example : ∃ (H : List Nat → List Nat) (B : Nat) (key : List Nat), 0 < B ∧ B < key.length ∧ (B < key.length → (H key).length ≤ B) :=
